@@ -66,6 +66,7 @@ fn main() {
         "C07" => checks::c07::run(tier),
         "C03" => checks::c03::run(tier),
         "c03-child" => checks::c03::child(&args[2..]),
+        "replay" => replay(&args[2]),
         "probe" => {
             probe(&args[2..]);
             0
@@ -99,5 +100,68 @@ fn probe(a: &[String]) {
             }
         }
         _ => usage(),
+    }
+}
+
+/// Re-execute a recorded violation without any explorer. Exit 1 if it still reproduces.
+fn replay(path: &str) -> i32 {
+    let txt = match std::fs::read_to_string(path) {
+        Ok(t) => t,
+        Err(e) => {
+            println!("machinery: cannot read {path}: {e}");
+            return 2;
+        }
+    };
+    let v: serde_json::Value = match serde_json::from_str(&txt) {
+        Ok(v) => v,
+        Err(e) => {
+            println!("machinery: {path} is not JSON: {e}");
+            return 2;
+        }
+    };
+    let g = |k: &str| v[k].as_str().unwrap_or("").to_string();
+    let (prop, lang, entry, input, recorded, expected) = (g("property"), g("language"), g("entry_point"), g("input"), g("observed"), g("expected"));
+    let thr = v["threshold"].as_str().map(infra::thr_parse).unwrap_or(0.0);
+    println!("property {prop}  language {lang}  entry {entry}  threshold {}", infra::thr_name(thr));
+    println!("input:    {input}");
+    println!("expected: {expected}");
+    println!("recorded: {recorded}");
+    let l = L::from_code(&lang);
+    let now: Option<String> = match (entry.as_str(), l) {
+        ("text2digits", Some(l)) => Some(match infra::guard(|| text2num::text2digits(&input, &l.facade())) {
+            Ok(Ok(s)) => s,
+            Ok(Err(e)) => format!("Err({e:?})"),
+            Err(p) => p,
+        }),
+        ("replace_text", Some(l)) => Some(infra::guard(|| text2num::replace_numbers_in_text(&input, &l.facade(), thr)).unwrap_or_else(|p| p)),
+        ("find_text", Some(l)) => Some(infra::guard(|| stream::show_occs(&stream::find_in_text(&input, &l.facade(), thr).1)).unwrap_or_else(|p| p)),
+        ("find_tokens", Some(l)) | ("find_tokens_iter", Some(l)) => {
+            let words: Vec<String> = serde_json::from_str(&input).unwrap_or_default();
+            let refs: Vec<&str> = words.iter().map(|s| s.as_str()).collect();
+            let toks = stream::htoks(&refs);
+            Some(infra::guard(|| stream::show_occs(&stream::find(&toks, &l.facade(), thr))).unwrap_or_else(|p| p))
+        }
+        ("digit_ops", _) => Some(checks::c12::replay(&input)),
+        _ => None,
+    };
+    match now {
+        Some(n) => {
+            println!("now:      {n}");
+            let same = recorded == n || recorded.contains(&n) || (entry == "digit_ops" && n.lines().last().map_or(false, |l| recorded.split(" -> ").last().map_or(false, |r| l.contains(r.trim_matches('"')))));
+            if same && n != expected {
+                println!("REPRODUCED");
+                1
+            } else if n == expected {
+                println!("NOT REPRODUCED (the expected outcome is observed now)");
+                0
+            } else {
+                println!("DIFFERENT OUTCOME (neither the recorded nor the expected one)");
+                1
+            }
+        }
+        None => {
+            println!("this kind of violation ({entry}) is replayed by re-running: ./check {prop} quick");
+            0
+        }
     }
 }
